@@ -139,6 +139,12 @@ Verdict ==
      IN /\ (result.st = "err") <=> (HasFaultEvent(c) \/ (c.op = "parse" /\ ~HasElement(c)))
         /\ (result.st = "err" /\ ~HasFaultEvent(c)) => result.kind = "Parsing"
 
+\* C05 (design level): once the event is fixed the machine has no choice left - the list of demotions is
+\* determined (with HashOrder = TRUE this fails as soon as two children are demoted at once)
+Deterministic ==
+  (Reading /\ Depth > 1) =>
+     Cardinality(ToOptionalChoices(DemotionParent(stack[Len(stack) - 1], Top), Top.snap)) = 1
+
 \* C06 on the reference itself: the schema the documents determine does not depend on their order, is
 \* unchanged by supplying documents twice, and grows monotonically along every prefix
 AlgebraInv ==
